@@ -2625,11 +2625,12 @@ func apiutil2Path(path *apiutil.Path, isVRFTable bool, isWithdraw ...bool) (*tab
 			return nil, fmt.Errorf("duplicate path attribute %s", aType)
 		}
 		seen[aType] = struct{}{}
-		switch aType {
-		case bgp.BGP_ATTR_TYPE_NEXT_HOP:
-			nexthop = a.(*bgp.PathAttributeNextHop).Value
-		case bgp.BGP_ATTR_TYPE_MP_REACH_NLRI:
-			mp := a.(*bgp.PathAttributeMpReachNLRI)
+		// switch on the Go type, not on the type code: an unknown attribute
+		// (api.UnknownAttribute) may carry the code of NEXT_HOP or MP_REACH_NLRI
+		switch mp := a.(type) {
+		case *bgp.PathAttributeNextHop:
+			nexthop = mp.Value
+		case *bgp.PathAttributeMpReachNLRI:
 			if len(mp.Value) == 0 {
 				return nil, fmt.Errorf("mp reach nlri value is empty")
 			}
